@@ -20,6 +20,7 @@ func init() {
 	runners["C12"] = func(c *Ctx) {
 		runSrv6(c)
 		runServeLoop6(c, c.Scale(12, 300)) // the same statement through the receive loop on a real socket
+		emitCodec6(c)                      // every datagram and reply of the run against the wire-format model
 	}
 }
 
@@ -210,6 +211,24 @@ type sent6 struct {
 	dst     net.Addr
 }
 
+// datagrams and replies of the run, for the wire-format correspondence (model/Msg6Run.v)
+var codec6Cases []string
+
+func emitCodec6(c *Ctx) {
+	c.SetCases("From Verif Require Import Base Msg6 Msg6Codec Msg6Run.", "Msg6Run.mismatches")
+	c.shard = 150
+	seen := map[string]bool{}
+	for _, t := range codec6Cases {
+		if seen[t] {
+			continue
+		}
+		seen[t] = true
+		c.AddCase(t)
+		c.Count("codec6:" + t[:5])
+	}
+	codec6Cases = nil
+}
+
 func runDatagram6(c *Ctx, chain []sbeh6, lif int, oob *int, peer *net.UDPAddr, raw []byte, label string) {
 	installHook()
 	var lg []v6inv
@@ -252,6 +271,9 @@ func runDatagram6(c *Ctx, chain []sbeh6, lif int, oob *int, peer *net.UDPAddr, r
 		t, depth = vPkt6(d)
 		parsedTxt = "(Some " + t + ")"
 	}
+	if len(raw) < 3000 {
+		codec6Cases = append(codec6Cases, fmt.Sprintf("C6Dec %s %s", vBytes(raw), parsedTxt))
+	}
 	sentTxt := "None"
 	var resp dhcpv6.DHCPv6
 	switch {
@@ -272,6 +294,9 @@ func runDatagram6(c *Ctx, chain []sbeh6, lif int, oob *int, peer *net.UDPAddr, r
 			ifx = "(Some " + vZ(int64(s.cm.IfIndex)) + ")"
 		}
 		pt, _ := vPkt6(resp)
+		if len(s.payload) < 3000 {
+			codec6Cases = append(codec6Cases, fmt.Sprintf("C6Enc %s %s", pt, vBytes(s.payload)))
+		}
 		sentTxt = fmt.Sprintf("(Some (%s, %s, %s, %s))", pt, vBytes(ua.IP.To16()), vZ(int64(ua.Port)), ifx)
 	}
 	logItems := []string{}
